@@ -616,6 +616,11 @@ def g_blame(E, config, d):
             if d in g_direct(E, cand):
                 cur = cand; progress = True
                 break
+    for i in range(len(cur)):            # return form: keep it only if the plain list form does not show the same
+        if cur[i][4] != 'list':
+            cand = cur[:i] + (cur[i][:4] + ('list',),) + cur[i + 1:]
+            g_install(E, cand)
+            if d in g_direct(E, cand): cur = cand
     g_install(E, config)
     ucls = GUSERS[ui] if ui is not None else None
     ent = t[1] if t is not None else None
@@ -672,9 +677,11 @@ def g_judge(E, config, stats=None, only_rule=None):
                             else: stats['granted' if got else 'denied'] += 1
                         if isinstance(got, str) or got == exp: continue
                         law = 'D-granted-but-not-declared' if got else 'D-declared-but-denied'
-                        why = sorted(set(blame.get((ui, t), ()))) or ['getters answer as registered']
-                        needs = '+'.join(k for k, v in zip(('groups', 'roles', 'labels'), rule[2:5]) if v) or 'nothing'
-                        sig = '%s | %s | rule needs %s | %s' % (law, target_kind(t), needs, ' ; '.join(why))
+                        why = sorted(set(blame.get((ui, t), ())))
+                        if not why:
+                            needs = '+'.join(k for k, v in zip(('groups', 'roles', 'labels'), rule[2:5]) if v) or 'nothing'
+                            why = ['getters answer as registered, rule needs ' + needs]
+                        sig = '%s | %s | %s' % (law, target_kind(t), ' ; '.join(why))
                         out.append((sig, dict(getters=[list(r) for r in config], rule=list(rule), user=ucls, target=list(t)),
                                     '%s: view %s for user %s under %s with getters %s: has_perm -> %r, declared %r'
                                     % (law, '.'.join(map(str, t[1:])), ucls or 'anonymous', rule_text(rule),
@@ -869,9 +876,9 @@ def run(ctx):
                '(restored afterwards); a getter applies iff isinstance(user, user_cls) and isinstance(obj, obj_cls), None = any; '
                'the anonymous user has the group anybody only and no roles')
     ctx.assume('can_view may or may not be implied by an edit rule: both accepted')
-    return dict(evaluations=c.get('decisions', 0), distinct_nontrivial=c.get('nontrivial_rule_sets', 0),
+    return dict(evaluations=c.get('decisions', 0), distinct_nontrivial=c.get('nontrivial_rule_sets', 0) + c.get('nontrivial_getter_configurations', 0),
                 rule='evaluations = has_perm decisions compared with the reference (users x permissions x targets x rule set x order); '
-                     'distinct_nontrivial = distinct unordered rule sets for which at least one decision was a grant and one a denial')
+                     'distinct_nontrivial = distinct unordered rule sets (plus getter registration configurations) for which at least one decision was a grant and one a denial')
 
 def replay(ctx, case):
     E = env()
